@@ -6,6 +6,8 @@ mod config;
 mod node;
 
 mod adversary;
+mod batch;
+mod props;
 mod cluster;
 mod entropy;
 mod gen;
@@ -18,22 +20,65 @@ mod rng;
 mod runner;
 mod scenario;
 
+fn env_u64(name: &str, default: u64) -> u64 {
+    std::env::var(name).ok().and_then(|v| v.trim().parse::<u64>().ok()).unwrap_or(default)
+}
+
 fn main() {
     runner::install_panic_hook();
     let args: Vec<String> = std::env::args().collect();
-    match args.get(1).map(|s| s.as_str()) {
+    let verif_dir = std::env::var("VERIF_DIR").unwrap_or_else(|_| "/verif".to_string());
+    let code = match args.get(1).map(|s| s.as_str()) {
         Some("one") => {
-            let seed: u64 = args.get(2).and_then(|s| s.parse().ok()).unwrap_or(1);
-            let sc = gen::base(seed);
+            // hsim one <prop> <scenario-seed> [thorough]
+            let prop = args.get(2).cloned().unwrap_or_else(|| "base".into());
+            let seed: u64 = args.get(3).and_then(|s| s.parse().ok()).unwrap_or(1);
+            let thorough = args.get(4).map_or(false, |s| s == "thorough");
+            let sc = match props::find(&prop) {
+                Some(spec) => (spec.gen)(seed, thorough),
+                None => gen::for_prop(&prop, seed, thorough),
+            };
+            if std::env::var("HSIM_DUMP").is_ok() {
+                println!("{}", serde_json::to_string_pretty(&sc).unwrap());
+            }
             let t0 = std::time::Instant::now();
             let rep = runner::run_scenario(&sc);
             println!("{}", serde_json::to_string_pretty(&rep).unwrap());
             eprintln!("wall {:?}", t0.elapsed());
+            0
         }
+        Some("check") => {
+            // hsim check <prop> <quick|thorough>
+            let prop = args.get(2).cloned().unwrap_or_default();
+            let tier = args.get(3).cloned().unwrap_or_else(|| std::env::var("VERIF_TIER").unwrap_or_else(|_| "quick".into()));
+            match props::find(&prop) {
+                Some(spec) => {
+                    let cfg = batch::BatchCfg {
+                        prop: prop.clone(),
+                        tier,
+                        seed: env_u64("VERIF_SEED", 20260922),
+                        threads: env_u64("HSIM_THREADS", 16) as usize,
+                        runs_override: std::env::var("HSIM_RUNS").ok().and_then(|v| v.parse().ok()),
+                        wall_override: std::env::var("HSIM_WALL").ok().and_then(|v| v.parse().ok()),
+                        verif_dir,
+                    };
+                    batch::run_batch(&cfg, &spec)
+                }
+                None => {
+                    println!("HARNESS-ERROR: unknown property {}", prop);
+                    2
+                }
+            }
+        }
+        Some("replay") => match args.get(2) {
+            Some(path) => batch::replay(path),
+            None => 2,
+        },
         _ => {
-            eprintln!("usage: hsim one <seed>");
-            std::process::exit(2);
+            eprintln!("usage: hsim one <prop> <seed> | check <prop> <tier> | replay <file>");
+            2
         }
-    }
+    };
     let _ = std::fs::remove_dir_all(runner::scratch_root());
+    std::process::exit(code);
 }
